@@ -550,44 +550,37 @@ impl Array {
         // else if all dimensions match
         // else (broadcast)
         } else {
-            let mut flat_indices = vec![0; arrays.len()];
-            let mut slices: Vec<&[Float]> = arrays
-                .iter()
-                .zip(&group_lengths)
-                .map(|(v, &g)| &v.values[0..g])
-                .collect();
-
             for _ in 0..leading_length {
-                let output_offset = flatten_indices(&indices, &output_dimensions);
+                let leading_indices = &indices[0..leading_count];
+
+                // every operand, and the output are offset by their own leading dimensions
+                let slices: Vec<&[Float]> = arrays
+                    .iter()
+                    .zip(&group_lengths)
+                    .map(|(v, &g)| {
+                        let count = v.dimensions.len().saturating_sub(op_dimension_count);
+                        let offset = broadcast_offset(leading_indices, &v.dimensions[0..count]) * g;
+                        &v.values[offset..offset + g]
+                    })
+                    .collect();
+
+                let output_offset =
+                    broadcast_offset(leading_indices, &output_dimensions[0..leading_count])
+                        * output_group_length;
                 let output_slice =
                     &mut output_values[output_offset..output_offset + output_group_length];
 
                 op(output_slice, &slices);
 
-                for (i, (x, d)) in indices
+                for (x, d) in indices
                     .iter_mut()
                     .zip(input_dimensions)
-                    .enumerate()
                     .rev()
                     .skip(op_dimension_count)
                 {
                     if *x == *d - 1 {
                         *x = 0;
                     } else {
-                        for (((index, slice), array), group_length) in flat_indices
-                            .iter_mut()
-                            .zip(slices.iter_mut())
-                            .zip(&arrays)
-                            .zip(&group_lengths)
-                        {
-                            if i < array.dimensions.len().saturating_sub(op_dimension_count)
-                                && array.dimensions[i] != 1
-                            {
-                                *index += group_length;
-                                *slice = &array.values[*index..*index + group_length];
-                            }
-                        }
-
                         *x += 1;
                         break;
                     }
@@ -796,6 +789,17 @@ impl Index<Vec<usize>> for Array {
     fn index(&self, indices: Vec<usize>) -> &Self::Output {
         &self.values[flatten_indices(&indices, &self.dimensions)]
     }
+}
+
+/// Converts leading indices to the flattened index of a group in dimensions, which are right-aligned to the
+/// indices, with an index of zero along broadcast (unit) dimensions.
+fn broadcast_offset(indices: &[usize], dimensions: &[usize]) -> usize {
+    indices
+        .iter()
+        .skip(indices.len() - dimensions.len())
+        .zip(dimensions)
+        .filter(|&(_, d)| *d != 1)
+        .fold(0, |acc, (i, d)| acc * d + i)
 }
 
 /// Converts indices by dimension to a single flattened index.
